@@ -634,9 +634,10 @@ theorem processTimeout_chain (env : Env) (m : Machine) (s : Step) (h : Height) (
 
 /-- The driver's discipline for one input: timeouts are only delivered to a started height and a
 height is started in a round `≥ 0` (`driver.listen` calls `ProcessStart(0)` right after construction
-and after every commit, before anything else). -/
+and after every commit, before anything else; `ProcessWAL` replays the same calls). -/
 def InputOK (m : Machine) : Input → Prop
   | .timeout _ _ _ => m.isHeightStarted = true
+  | .wal (.timeout _ _ _) => m.isHeightStarted = true
   | .start r => 0 ≤ r
   | _ => True
 
@@ -645,7 +646,41 @@ def RecvOf : Input → VCChange → Prop
   | .proposal p, c => c = .proposal p
   | .prevote v, c => c = .vote v .prevote
   | .precommit v, c => c = .vote v .precommit ∨ c = .futureQ v.height v.round v.id
+  | .sync p vs, c => c = .proposal p ∨ ∃ v ∈ vs, c = .vote v .precommit ∨ c = .futureQ v.height v.round v.id
+  | .wal (.proposal p), c => c = .proposal p
+  | .wal (.prevote v), c => c = .vote v .prevote
+  | .wal (.precommit v), c => c = .vote v .precommit ∨ c = .futureQ v.height v.round v.id
   | _, _ => False
+
+theorem processSyncVotes_chain (env : Env) : ∀ (vs : List Vote) (m : Machine) (acc : List Action),
+    (∀ v ∈ vs, A (.vote v .precommit) ∧ A (.futureQ v.height v.round v.id)) → MInv env m →
+    ∃ out, (Machine.processSyncVotes env m acc vs).2 = acc ++ out ∧
+      XChain env A m out (Machine.processSyncVotes env m acc vs).1 ∧
+      MInv env (Machine.processSyncVotes env m acc vs).1 := by
+  intro vs
+  induction vs with
+  | nil => intro m acc _ hi; exact ⟨[], by simp [Machine.processSyncVotes], XChain.nil m, hi⟩
+  | cons v rest ih =>
+    intro m acc hA hi
+    have hv := hA v List.mem_cons_self
+    have h1 := processPrecommit_chain (A := A) env m v hv.1 hv.2 hi
+    simp only [Machine.processSyncVotes]
+    obtain ⟨out, e, h2, h3⟩ := ih (m.processPrecommit env v).1 (acc ++ (m.processPrecommit env v).2)
+      (fun w hw => hA w (List.mem_cons_of_mem v hw)) h1.2
+    exact ⟨(m.processPrecommit env v).2 ++ out, by rw [e, List.append_assoc], XChain.append h1.1 h2, h3⟩
+
+theorem processSync_chain (env : Env) (m : Machine) (p : Proposal) (vs : List Vote)
+    (hA : A (.proposal p)) (hAv : ∀ v ∈ vs, A (.vote v .precommit) ∧ A (.futureQ v.height v.round v.id))
+    (hi : MInv env m) :
+    XChain env A m (m.processSync env p vs).2 (m.processSync env p vs).1 ∧
+      MInv env (m.processSync env p vs).1 := by
+  unfold Machine.processSync
+  have h1 := processProposal_chain (A := A) env m p hA hi
+  obtain ⟨out, e, h2, h3⟩ := processSyncVotes_chain (A := A) env vs (m.processProposal env p).1
+    (m.processProposal env p).2 hAv h1.2
+  simp only
+  rw [e]
+  exact ⟨XChain.append h1.1 h2, h3⟩
 
 /-- **Every (disciplined) input is a chain of micro-steps.** -/
 theorem step_chain (env : Env) (m : Machine) (i : Input) (hA : ∀ c, RecvOf i c → A c) (hok : InputOK m i)
@@ -657,6 +692,16 @@ theorem step_chain (env : Env) (m : Machine) (i : Input) (hA : ∀ c, RecvOf i c
   | prevote v => exact processPrevote_chain (A := A) env m v (hA _ rfl) hi
   | precommit v => exact processPrecommit_chain (A := A) env m v (hA _ (Or.inl rfl)) (hA _ (Or.inr rfl)) hi
   | timeout s h r => exact processTimeout_chain (A := A) env m s h r hok hi
+  | sync p vs =>
+    exact processSync_chain (A := A) env m p vs (hA _ (Or.inl rfl))
+      (fun v hv => ⟨hA _ (Or.inr ⟨v, hv, Or.inl rfl⟩), hA _ (Or.inr ⟨v, hv, Or.inr rfl⟩)⟩) hi
+  | wal e =>
+    cases e with
+    | start h => exact processStart_chain (A := A) env m 0 (Int.le_refl 0) hi
+    | proposal p => exact processProposal_chain (A := A) env m p (hA _ rfl) hi
+    | prevote v => exact processPrevote_chain (A := A) env m v (hA _ rfl) hi
+    | precommit v => exact processPrecommit_chain (A := A) env m v (hA _ (Or.inl rfl)) (hA _ (Or.inr rfl)) hi
+    | timeout s h r => exact processTimeout_chain (A := A) env m s h r hok hi
 
 theorem new_MInv (env : Env) (node : Addr) (h : Height) : MInv env (Machine.new env node h) :=
   ⟨new_inv env h, rfl⟩
